@@ -47,6 +47,12 @@ func rebuild(t *Term, f func(*Term) *Term) *Term {
 		return Conv(t.S, args[0])
 	case "join":
 		return Join(args...)
+	case "f+":
+		return fAdd(args[0], args[1])
+	case "f*":
+		return fMul(args[0], args[1])
+	case "fneg":
+		return fNeg(args[0])
 	}
 	return &Term{Op: t.Op, S: t.S, Args: args, C: t.C}
 }
@@ -339,6 +345,16 @@ func evalT(t *Term, env map[string]*big.Rat) *big.Rat {
 	case "conv":
 		return evalT(t.Args[0], env)
 	case "call":
+		if t.S == "math.Abs" && len(t.Args) == 1 {
+			return new(big.Rat).Abs(evalT(t.Args[0], env))
+		}
+		if (t.S == "math.Min" || t.S == "math.Max") && len(t.Args) == 2 {
+			a, b := evalT(t.Args[0], env), evalT(t.Args[1], env)
+			if (a.Cmp(b) < 0) == (t.S == "math.Min") {
+				return a
+			}
+			return b
+		}
 		if t.S == "intdiv" && len(t.Args) == 2 {
 			a, b := evalT(t.Args[0], env), evalT(t.Args[1], env)
 			if a.IsInt() && b.IsInt() && b.Sign() != 0 {
